@@ -49,13 +49,25 @@ theorem sem_zero_stmt {n : Nat} {k : Ctx} {c : Cmd} (hc : zeroCmd c = true) {e e
         by_cases h1 : k.depth = 0
         · simp [sem, h1, swrap] at h; rw [← h]
         · by_cases h2 : optInt m < 1
-          · simp [sem, h1, h2, swrap] at h
+          · simp only [sem, h1, h2, ↓reduceIte, swrap] at h
+            split at h
+            · split at h
+              · cases h
+              · cases h
+              · split at h <;> cases h
+            · cases h
           · simp [sem, h1, h2, swrap] at h
       case cont m =>
         by_cases h1 : k.depth = 0
         · simp [sem, h1, swrap] at h; rw [← h]
         · by_cases h2 : optInt m < 1
-          · simp [sem, h1, h2, swrap] at h
+          · simp only [sem, h1, h2, ↓reduceIte, swrap] at h
+            split at h
+            · split at h
+              · cases h
+              · cases h
+              · split at h <;> cases h
+            · cases h
           · simp [sem, h1, h2, swrap] at h
 
 theorem lastZero_cons_cons (st st2 : Stmt) (rest : Prog) :
